@@ -260,6 +260,10 @@ def run_scenario(sc, rng, raising=None, extra_handlers=None, kind="function"):
     if sc["reject"]:
         srv_ae.require_called_aet = True
     handlers = rec_acc.handlers() + [(evt.EVT_C_ECHO, on_echo), (evt.EVT_ESTABLISHED, on_est)]
+    if sc.get("acc_slow_requested"):
+        # the acceptor's EVT_REQUESTED handler outlasts the requestor's ACSE timeout: the requestor's abort arrives while
+        # the acceptor is still negotiating
+        handlers.append((evt.EVT_REQUESTED, lambda e: time.sleep(sc["acc_slow_requested"] * sc["timeouts"])))
     srv = srv_ae.start_server(("127.0.0.1", 0), block=False, evt_handlers=handlers)
     port = srv.socket.getsockname()[1]
     shaker = None
@@ -292,7 +296,7 @@ def run_scenario(sc, rng, raising=None, extra_handlers=None, kind="function"):
             elif sc["acc"] == "abort":
                 a.abort()
 
-        if not assoc.is_established and not sc["reject"] and not assoc.is_rejected and not sc.get("nocx"):
+        if not assoc.is_established and not sc["reject"] and not assoc.is_rejected and not sc.get("nocx") and not sc.get("acc_slow_requested"):
             # the scenario is about an established association: with tiny timeouts on a loaded machine the negotiation
             # itself can time out.  Not a verdict on the property - run_many re-runs it alone with longer timeouts.
             res["inconclusive"] = "association not established (not rejected either)"
